@@ -51,11 +51,15 @@ def detect(sid, tier="quick"):
         ap = sh("git -C %s apply %s/patch.diff" % (wt, d))
         assert ap.returncode == 0, "patch does not apply: " + ap.stderr
         out = {}
-        for prop in meta["checks"]:
+        other = os.environ.get("SEEDED_CHECKS")   # run other properties' checks against this change (not recorded)
+        for prop in (other.split(",") if other else meta["checks"]):
             r = sh("cd %s && VERIF_REPO=%s VERIF_OUT=%s ./vcheck %s --tier %s" % (V, wt, out_dir, prop, tier))
             viol = [l for l in r.stdout.splitlines() if l.startswith("VIOLATION")]
             sigs = [l.strip() for l in r.stdout.splitlines() if l.strip().startswith("signature:")]
             out[prop] = {"exit": r.returncode, "violations": len(viol), "signatures": sigs[:4]}
+        if other:
+            print(sid, "by", other, json.dumps(out)[:500])
+            return
         meta.setdefault("detected", {})[tier] = out
         meta.setdefault("first_verdict", "caught" if any(v["exit"] == 1 for v in out.values()) else "missed")
         meta["caught"] = any(v["exit"] == 1 for t in meta["detected"].values() for v in t.values())
